@@ -619,7 +619,7 @@ def positions(rep, prog, rule):
     rep.floor(rule, "part constructors with explicit positions", n, 4)
 
 
-def sizes(rep, prog, rule):
+def sizes(rep, prog, rule, siblings=False):
     rep.rule(rule, "a split that builds its parts itself sizes them from the floor quotient "
              "size / parts and hands the size % parts surplus rows out one by one (sizes differ "
              "by at most one, no part is empty because parts <= size); a step rounded up "
@@ -642,6 +642,8 @@ def sizes(rep, prog, rule):
                 for j, st in enumerate(blk["s"]):
                     if st[0] == "a" and st[2][0] == "bin" and st[2][1] in ("Div", "Rem"):
                         e = gs.rvalue(st[2], b, (b, j))
+                        if g.kind == "closure":
+                            e = _with_captures(prog, g, e)
                         den = fmt(e[3])
                         if "num_parts" in den or "parts" in den:
                             num = e[2]
@@ -671,11 +673,49 @@ def sizes(rep, prog, rule):
                     "%s sizes its parts with %s, a quotient rounded up: the parts before the last "
                     "take more than their share, the last ones are more than one row shorter or "
                     "empty (10 rows / 6 parts: 2,2,2,2,2,0)" % (f.name, fmt(e)[:80]))
+        elif divs and not rems and any(_is_index_times_size(e) for e, _ in divs):
+            # boundaries i * size / parts: balanced as well, but the surplus goes to the LAST parts
+            if siblings:
+                e, at = [d for d in divs if _is_index_times_size(d[0])][0]
+                rep.bad(rule, key + "|other-distribution", at,
+                        "%s places its parts at the boundaries %s: the sizes differ by at most one, but "
+                        "the larger parts come last, while every other split of the crate (the mutable "
+                        "one of the same view included) gives the surplus rows to the first parts: source "
+                        "and destination bands that are split separately and zipped no longer match "
+                        "(103 rows in 4 parts: 25,26,26,26 against 26,26,26,25)" % (f.name, fmt(e)[:70]))
+            else:
+                rep.ok(rule, key, divs[0][1], "boundaries %s (sizes differ by at most one)" % fmt(divs[0][0])[:60])
         elif divs and rems:
             rep.ok(rule, key, divs[0][1], "step %s, surplus %s" % (fmt(divs[0][0])[:50], fmt(rems[0][0])[:50]))
         else:
             rep.unk(rule, key, f.loc, "floor quotient %s, remainder %s" % (bool(divs), bool(rems)))
     rep.floor(rule, "splits that size their parts", n, 4)
+
+
+def _with_captures(prog, g, e, depth=0):
+    """upvars of closure g replaced by what the enclosing function stored in them"""
+    if not isinstance(e, tuple) or not e or depth > 30:
+        return e
+    if e[0] == "field" and isinstance(e[2], int) and isinstance(e[1], tuple) and e[1]:
+        b = e[1]
+        while b[0] in ("deref", "ref"):
+            b = b[1]
+        if b[0] == "param" and b[1] == 1:
+            r = resolve_capture(prog, g, e[2])
+            if r is not None:
+                return r
+    if e[0] == "deref" and isinstance(e[1], tuple):
+        r = _with_captures(prog, g, e[1], depth + 1)
+        return r
+    return tuple(_with_captures(prog, g, x, depth + 1) if isinstance(x, tuple) else x for x in e)
+
+
+def _is_index_times_size(e):
+    """(i * size) / parts, also with widening casts and i + 1"""
+    num = e[2] if e[0] == "bin" and e[1] == "Div" else None
+    while isinstance(num, tuple) and num and num[0] in ("cast", "ovf"):
+        num = num[2] if num[0] == "cast" else num[1]
+    return isinstance(num, tuple) and bool(num) and num[0] == "bin" and num[1] == "Mul"
 
 
 def run(rep, tier):
